@@ -12,6 +12,7 @@ from .. import core
 from ..core import q, lst, natl, boolc, opt, pair
 from .. import pb
 
+NAMING = True
 ID = "C09"
 ORACLE = "Oracle.C09"
 PROPS = "Props/C09.v"
